@@ -257,6 +257,25 @@ def run(ctx):
         if not held:
             run.finding(Finding("C14.R4b", fid, "Owner method takes a keychain_mask but never consults it", site=db.fns[fid].loc()))
 
+    R7 = "C14.R7"
+    run.rule(R7, "where an Owner method tests the token itself (keychain(mask) only to see it accepted), the test comes first: no libwallet call of the method is reachable without its Ok edge", floor=4)
+    KC = c.WB + "keychain"
+    for fid in sorted(owner_methods):
+        f = db.fns[fid]
+        tests = [(b, t) for b, t in cfg.find_calls(f, KC)]
+        if not tests:
+            continue
+        ok = set()
+        for b, _t in tests:
+            ok |= cfg.call_guard(f, b).ok
+        sinks7 = {b for b, t in f.calls() if (t.get("f") or "").startswith((c.LW + "api_impl::owner::", c.LW + "api_impl::foreign::"))}
+        if not sinks7 or not ok:
+            continue
+        held, path = cfg.must_pass(f, ok, sinks7)
+        run.instance(R7, {"fn": pp.short(fid), "obligation": "every libwallet call of the method requires the token test Ok", "calls": len(sinks7)}, held=held)
+        if not held:
+            run.finding(Finding(R7, fid, "the method acts before it has tested the token: with a wrong or missing token it still fails with the mask error, but its effect has already happened", site=c.site_of(f, path[-1]), detail=cfg.describe_path(f, path)))
+
     R5 = "C14.R5"
     run.rule(R5, "closed means closed: wallet_inst() errs on None; close_wallet clears the backend", floor=3)
     wi = [f for k, f in db.fns.items() if "DefaultLCProvider" in k and k.endswith("::wallet_inst") and "WalletLCProvider" in k]
